@@ -6,7 +6,7 @@ import typing as t
 
 from vlib.fixtures import models as M
 from vlib.shapes import *  # noqa: F401,F403
-from vlib.shapes import (Bool, DictOf, EnumS, FixedTuple, Float, Int, ListOf, Lit, Map, NoneS, Opt, Picked, Seq,
+from vlib.shapes import (Bool, Bytes, DictOf, EnumS, FixedTuple, Float, Int, ListOf, Lit, Map, NoneS, Opt, Picked, Seq,
                          SetOf, Shape, Str, Struct, UnionS, Wrapped)
 
 
@@ -46,6 +46,7 @@ def MixedS(): return Struct(M.Mixed, {"p": PointS(), "tags": ListOf(Str()), "pai
                                       "opt": Opt(PointS())})
 def NTS_(): return Struct(M.NT, {"a": Int(), "b": Str()})
 def NTSS(): return Struct(M.NTS, {"name": Str(), "n": Int()})
+def SubNTS(): return Struct(M.SubNT, {"a": Int(), "b": Str()}, name="SubNT")
 def TDS(): return Struct(M.TD, {"a": Int(), "b": Str()}, kind="typeddict")
 def TDNS(): return Struct(M.TDN, {"a": Int(), "b": Str()}, kind="typeddict", optional=("b",))
 def TDChildS(): return Struct(M.TDChild, {"id": Int(), "nick": Str()}, kind="typeddict", optional=("nick",))
@@ -156,7 +157,7 @@ def _opt_of(inner, T, name, live):
 
 # ------------------------------------------------------------------------------------------- catalogue
 def scalars_transparent():
-    return [Int(), Bool(), Float(), Str(), NoneS(), EnumS(M.Color), EnumS(M.Mood), EnumS(M.Level), EnumS(M.Tag),
+    return [Int(), Bool(), Float(), Str(), Bytes(), NoneS(), EnumS(M.Color), EnumS(M.Mood), EnumS(M.Level), EnumS(M.Tag),
             Lit(1, 2, "a"), Lit("x", "y"), Lit(True, 3)]
 
 
@@ -185,7 +186,7 @@ def containers1():
 
 def structured():
     return [PointS(), SPointS(), FPointS(), KPointS(), LineS(), BagS(), MixedS(), NTS_(), NTSS(), TDS(), TDNS(),
-            TDChildS(), TDReqS(), PlainS(), SlottedS()]
+            TDChildS(), TDReqS(), PlainS(), SlottedS(), SubNTS()]
 
 
 def wrappers():
@@ -222,7 +223,7 @@ def depth3():
 
 
 CORE = {
-    "int", "bool", "float", "str", "None", "Color", "Mood", "Level", "Tag", "Literal[1, 2, 'a']", "Literal[True, 3]",
+    "int", "bool", "float", "str", "bytes", "None", "SubNT", "Color", "Mood", "Level", "Tag", "Literal[1, 2, 'a']", "Literal[True, 3]",
     "Decimal", "UUID", "date", "datetime", "time", "timedelta", "PosixPath" , "Path",
     "list[int]", "Sequence[str]", "set[int]", "deque[int]", "tuple[int,...]", "tuple[int,str]", "tuple[int,str,bool]",
     "dict[str,int]", "dict[int,str]", "Mapping[str,int]", "Optional[int]", "Optional[str]", "int|None",
